@@ -1095,3 +1095,53 @@ V(id='c29-benign-gate-reversed-compare', prop='C29', file='mpmath/calculus/optim
 V(id='c29-benign-bisection-sign-call', prop='C29', file='mpmath/calculus/optimization.py',
   old="            sign = fm * fb", new="            sign = self.ctx.sign(fm) * self.ctx.sign(fb)",
   expect='silent')
+
+# ---------------------------------------------------------------- C37 -------
+V(id='c37-gmpy-mul-signature', prop='C37', file='mpmath/libmp/libmpf.py',
+  old="def gmpy_mpf_mul(s, t, prec=0, rnd=round_fast):", new="def gmpy_mpf_mul(s, t, prec, rnd=round_fast):",
+  expect='fire:Y-R1:gmpy_mpf_mul')
+V(id='c37-gmpy-mul-int-ignores-mode', prop='C37', file='mpmath/libmp/libmpf.py',
+  old="    man *= n\n    return normalize(sign, man, exp, bitcount(man), prec, rnd)",
+  new="    man *= n\n    return normalize(sign, man, exp, bitcount(man), prec, round_fast)",
+  expect='fire:Y-R2:gmpy_mpf_mul_int')
+V(id='c37-gmpy-mul-guard-bits', prop='C37', file='mpmath/libmp/libmpf.py',
+  old="        bc = bitcount(man)\n        if prec:\n            return normalize1(sign, man, sexp+texp, bc, prec, rnd)",
+  new="        bc = bitcount(man)\n        if prec:\n            return normalize1(sign, man, sexp+texp, bc, prec+2, rnd)",
+  expect='fire:Y-R2:gmpy_mpf_mul')
+V(id='c37-gmpy-mul-special-differs', prop='C37', file='mpmath/libmp/libmpf.py',
+  old="    if t == fzero: return fnan\n    return {1:finf, -1:fninf}[mpf_sign(s) * mpf_sign(t)]\n\ndef gmpy_mpf_mul_int",
+  new="    if t == fzero: return fzero\n    return {1:finf, -1:fninf}[mpf_sign(s) * mpf_sign(t)]\n\ndef gmpy_mpf_mul_int",
+  expect='silent')   # same SET of special constants: value-level difference, not decided (documented)
+V(id='c37-gmpy-mul-no-nan', prop='C37', file='mpmath/libmp/libmpf.py',
+  old="    if fnan in (s, t): return fnan\n    if (not tman) and texp: s, t = t, s\n    if t == fzero: return fnan\n    return {1:finf, -1:fninf}[mpf_sign(s) * mpf_sign(t)]\n\ndef gmpy_mpf_mul_int",
+  new="    if (not tman) and texp: s, t = t, s\n    return {1:finf, -1:fninf}[mpf_sign(s) * mpf_sign(t)]\n\ndef gmpy_mpf_mul_int",
+  expect='fire:Y-R2:gmpy_mpf_mul')
+V(id='c37-gmpy-mul-int-unguarded', prop='C37', file='mpmath/libmp/libmpf.py',
+  old="def gmpy_mpf_mul_int(s, n, prec, rnd=round_fast):\n    \"\"\"Multiply by a Python integer.\"\"\"\n    sign, man, exp, bc = s\n    if not man:\n        return mpf_mul(s, from_int(n), prec, rnd)\n",
+  new="def gmpy_mpf_mul_int(s, n, prec, rnd=round_fast):\n    \"\"\"Multiply by a Python integer.\"\"\"\n    sign, man, exp, bc = s\n",
+  expect='fire:Y-R2:gmpy_mpf_mul_int')
+V(id='c37-dispatch-crossed', prop='C37', file='mpmath/libmp/libintmath.py',
+  old="if BACKEND == 'gmpy':\n    bitcount = gmpy_bitcount\n    trailing = gmpy_trailing",
+  new="if BACKEND == 'gmpy':\n    bitcount = python_bitcount\n    trailing = gmpy_trailing",
+  expect='fire:Y-R3')
+V(id='c37-table-from-python-primitive', prop='C37', file='mpmath/libmp/libintmath.py',
+  old="bctable = [bitcount(n) for n in range(1024)]", new="bctable = [python_bitcount(n) for n in range(1024)]",
+  expect='fire:Y-R4')
+V(id='c37-mask-table-short', prop='C37', file='mpmath/libmp/libmpf.py',
+  old="h_mask_small = [0]+[((MPZ_ONE<<(_-1))-1) for _ in range(1, 300)]",
+  new="h_mask_small = [0]+[((MPZ_ONE<<(_-1))-1) for _ in range(1, 256)]",
+  expect='fire:Y-R4:_normalize')
+V(id='c37-mask-big-off-by-one', prop='C37', file='mpmath/libmp/libmpf.py',
+  old="        return (MPZ_ONE<<(n-1))-1", new="        return (MPZ_ONE<<n)-1",
+  expect='fire:Y-R4:h_mask_big')
+V(id='c37-powers-sentinel', prop='C37', file='mpmath/libmp/libintmath.py',
+  old="powers = [1<<_ for _ in range(300)]", new="powers = [1<<_ for _ in range(256)]",
+  expect='fire:Y-R4:python_bitcount')
+V(id='c37-new-fork-untriaged', prop='C37', file='mpmath/libmp/libmpf.py',
+  old="if BACKEND == 'gmpy':\n    mpf_mul = gmpy_mpf_mul",
+  new="if BACKEND == 'gmpy':\n    mpf_shift_fast = None\n    mpf_mul = gmpy_mpf_mul",
+  expect='analysis-error:untriaged backend fork')
+V(id='c37-benign-rename-both', prop='C37', file='mpmath/libmp/libintmath.py',
+  edits=[("def gmpy_bitcount(n):\n    \"\"\"Calculate bit size of the nonnegative integer n.\"\"\"\n    if n: return MPZ(n).numdigits(2)\n    else: return 0",
+          "def gmpy_bitcount(n):\n    \"\"\"Calculate bit size of the nonnegative integer n.\"\"\"\n    if not n:\n        return 0\n    return MPZ(n).numdigits(2)")],
+  expect='silent')
